@@ -1,33 +1,35 @@
 import CollectionsC.Model.Chain
-/-! Helper lemmas about the shared `Chain` state: the canonical chain `ofList xs` (the unique state
+/-! Helper lemmas about the shared `Chain` state: the canonical chain `ofList t xs` (the unique state
 with content `xs` that satisfies the invariant), pointer arithmetic, the walking loops. -/
 namespace CC
 open CC
 
 namespace Chain
+variable {t : Triple}
 
 /-- the state with content `xs` whose bookkeeping is right -/
-def ofList (xs : List Nat) : Chain :=
-  { nodes := xs, size := xs.length,
+def ofList (t : Triple) (xs : List Nat) : Chain :=
+  { triple := t, nodes := xs, size := xs.length,
     head := if xs.length = 0 then none else some 0,
     tail := if xs.length = 0 then none else some (xs.length - 1) }
 
-theorem ofList_inv (xs : List Nat) : (ofList xs).Inv := by simp [ofList, Inv]
-@[simp] theorem ofList_abs (xs : List Nat) : (ofList xs).abs = xs := rfl
-@[simp] theorem ofList_nodes (xs : List Nat) : (ofList xs).nodes = xs := rfl
-@[simp] theorem ofList_size (xs : List Nat) : (ofList xs).size = xs.length := rfl
+theorem ofList_inv (xs : List Nat) : (ofList t xs).Inv := by simp [ofList, Inv]
+@[simp] theorem ofList_abs (xs : List Nat) : (ofList t xs).abs = xs := rfl
+@[simp] theorem ofList_nodes (xs : List Nat) : (ofList t xs).nodes = xs := rfl
+@[simp] theorem ofList_size (xs : List Nat) : (ofList t xs).size = xs.length := rfl
+@[simp] theorem ofList_triple (xs : List Nat) : (ofList t xs).triple = t := rfl
 
-theorem inv_iff (l : Chain) : l.Inv ↔ l = ofList l.nodes := by
+theorem inv_iff (l : Chain) : l.Inv ↔ l = ofList l.triple l.nodes := by
   constructor
   · intro ⟨h1, h2, h3⟩
     cases l; simp_all [ofList]
   · intro h; rw [h]; exact ofList_inv _
 
-theorem Inv.eq {l : Chain} (h : l.Inv) : l = ofList l.abs := (inv_iff l).1 h
+theorem Inv.eq {l : Chain} (h : l.Inv) : l = ofList l.triple l.abs := (inv_iff l).1 h
 
-theorem ofList_nil : ofList [] = {} := by simp [ofList]
-theorem ofList_head_cons (x : Nat) (xs : List Nat) : (ofList (x :: xs)).head = some 0 := by simp [ofList]
-theorem ofList_tail_cons (x : Nat) (xs : List Nat) : (ofList (x :: xs)).tail = some xs.length := by simp [ofList]
+theorem ofList_nil : ofList t [] = { triple := t } := by simp [ofList]
+theorem ofList_head_cons (x : Nat) (xs : List Nat) : (ofList t (x :: xs)).head = some 0 := by simp [ofList]
+theorem ofList_tail_cons (x : Nat) (xs : List Nat) : (ofList t (x :: xs)).tail = some xs.length := by simp [ofList]
 
 end Chain
 end CC
@@ -49,39 +51,87 @@ theorem walkPrev_some : ∀ (k j : Nat), k ≤ j → walkPrev (some j) k = some 
     simp only [walkPrev, Ptr.prev, this, if_false]
     rw [walkPrev_some k (j - 1) (by omega)]; congr 1; omega
 
-@[simp] theorem forward_ofList (xs : List Nat) : (ofList xs).forward = xs := by
+@[simp] theorem forward_ofList (xs : List Nat) : (ofList t xs).forward = xs := by
   cases xs <;> simp [forward, walk, ofList]
-@[simp] theorem backward_ofList (xs : List Nat) : (ofList xs).backward = xs.reverse := by
+@[simp] theorem backward_ofList (xs : List Nat) : (ofList t xs).backward = xs.reverse := by
   cases xs <;> simp [backward, walkBack, ofList]
 
 theorem data_some (l : Chain) (j : Nat) : l.data (some j) = l.nodes.getD j 0 := rfl
 
 end Chain
 
-theorem Mem.freeN_live : ∀ (n : Nat) (m : Mem), n ≤ m.live →
-    (Mem.freeN n m).live = m.live - n ∧ (Mem.freeN n m).fault = m.fault ∧ (Mem.freeN n m).libc = m.libc
-  | 0, m, _ => ⟨rfl, rfl, rfl⟩
+/-! ## the ledger seen from one allocator triple -/
+
+/-- blocks currently owned through the triple `t` -/
+def Mem.liveT (m : Mem) : Triple → Nat
+  | .conf => m.live
+  | .libc => m.liveLibc
+
+/-- the counters of the configured allocator / of the C library allocator -/
+def Mem.confSide (m : Mem) : List Bool × Nat × Nat × Nat × Nat := (m.sched, m.live, m.nalloc, m.nfree, m.nrefused)
+def Mem.libcSide (m : Mem) : Nat × Nat × Nat × Nat := (m.libc, m.liveLibc, m.lalloc, m.lfree)
+
+/-- an operation that works through the triple `t` leaves the other allocator's counters alone -/
+def Mem.Frame (t : Triple) (m m' : Mem) : Prop :=
+  match t with
+  | .conf => m'.libcSide = m.libcSide
+  | .libc => m'.confSide = m.confSide
+
+theorem Mem.Frame.rfl' (t : Triple) (m : Mem) : Mem.Frame t m m := by cases t <;> rfl
+theorem Mem.Frame.trans {t : Triple} {m1 m2 m3 : Mem} (h1 : Mem.Frame t m1 m2) (h2 : Mem.Frame t m2 m3) : Mem.Frame t m1 m3 := by
+  cases t <;> simp only [Mem.Frame] at * <;> rw [h2, h1]
+theorem Mem.Frame.liveT {t t' : Triple} {m m' : Mem} (h : Mem.Frame t m m') (hne : t' ≠ t) : m'.liveT t' = m.liveT t' := by
+  cases t <;> cases t' <;> simp_all [Mem.Frame, Mem.liveT, Mem.confSide, Mem.libcSide]
+theorem Mem.frame_allocT (t : Triple) (m : Mem) : Mem.Frame t m (m.allocT t).2 := by
+  cases t
+  · simp only [Mem.Frame, Mem.allocT, Mem.alloc, Mem.libcSide]; split <;> rfl
+  · rfl
+theorem Mem.frame_freeT (t : Triple) (m : Mem) : Mem.Frame t m (m.freeT t) := by
+  cases t
+  · simp only [Mem.Frame, Mem.freeT, Mem.free, Mem.libcSide]; split <;> rfl
+  · simp only [Mem.Frame, Mem.freeT, Mem.confSide]; split <;> rfl
+theorem Mem.frame_check (t : Triple) (m : Mem) (b : Bool) : Mem.Frame t m (m.check b) := by
+  cases b <;> cases t <;> rfl
+
+theorem Mem.allocT_fst_true (m : Mem) (t : Triple) (h : (m.allocT t).1 = true) :
+    (m.allocT t).2.liveT t = m.liveT t + 1 ∧ (m.allocT t).2.fault = m.fault := by
+  cases t
+  · have := Mem.alloc_fst_true m h; exact ⟨this.1, this.2.1⟩
+  · exact ⟨rfl, rfl⟩
+theorem Mem.allocT_fst_false (m : Mem) (t : Triple) (h : (m.allocT t).1 = false) :
+    (m.allocT t).2.liveT t = m.liveT t ∧ (m.allocT t).2.fault = m.fault ∧ t = .conf := by
+  cases t
+  · have := Mem.alloc_fst_false m h; exact ⟨this.1, this.2.1, rfl⟩
+  · simp [Mem.allocT] at h
+theorem Mem.freeT_live (m : Mem) (t : Triple) (h : 0 < m.liveT t) :
+    (m.freeT t).liveT t = m.liveT t - 1 ∧ (m.freeT t).fault = m.fault := by
+  cases t
+  · simp only [Mem.liveT] at h; simp only [Mem.freeT, Mem.free, Mem.liveT]; split
+    · omega
+    · exact ⟨rfl, rfl⟩
+  · simp only [Mem.liveT] at h; simp only [Mem.freeT, Mem.liveT]; split
+    · omega
+    · exact ⟨rfl, rfl⟩
+theorem Mem.allocT_nil (m : Mem) (t : Triple) (h : m.sched = []) : (m.allocT t).1 = true ∧ (m.allocT t).2.sched = [] := by
+  cases t
+  · exact Mem.alloc_nil m h
+  · exact ⟨rfl, h⟩
+
+theorem Mem.freeN_live (t : Triple) : ∀ (n : Nat) (m : Mem), n ≤ m.liveT t →
+    (Mem.freeN t n m).liveT t = m.liveT t - n ∧ (Mem.freeN t n m).fault = m.fault ∧ Mem.Frame t m (Mem.freeN t n m)
+  | 0, m, _ => ⟨rfl, rfl, Mem.Frame.rfl' t m⟩
   | k + 1, m, h => by
-    have hf : m.free.live = m.live - 1 ∧ m.free.fault = m.fault ∧ m.free.libc = m.libc := by
-      unfold Mem.free; split
-      · omega
-      · simp
-    have ih := Mem.freeN_live k m.free (by omega)
+    have hf := Mem.freeT_live m t (by omega)
+    have ih := Mem.freeN_live t k (m.freeT t) (by omega)
     simp only [Mem.freeN]
-    refine ⟨by omega, by rw [ih.2.1, hf.2.1], by rw [ih.2.2, hf.2.2]⟩
+    exact ⟨by omega, by rw [ih.2.1, hf.2], (Mem.frame_freeT t m).trans ih.2.2⟩
 
-theorem Mem.freeN_free : ∀ (n : Nat) (m : Mem), (Mem.freeN n m).free = Mem.freeN n m.free
+theorem Mem.freeN_free (t : Triple) : ∀ (n : Nat) (m : Mem), ((Mem.freeN t n m).freeT t) = Mem.freeN t n (m.freeT t)
   | 0, _ => rfl
-  | k + 1, m => by simp only [Mem.freeN]; exact Mem.freeN_free k m.free
+  | k + 1, m => by simp only [Mem.freeN]; exact Mem.freeN_free t k (m.freeT t)
 
-theorem Mem.freeN_succ (n : Nat) (m : Mem) : Mem.freeN (n + 1) m = (Mem.freeN n m).free := by
+theorem Mem.freeN_succ (t : Triple) (n : Nat) (m : Mem) : Mem.freeN t (n + 1) m = ((Mem.freeN t n m).freeT t) := by
   rw [Mem.freeN_free]; rfl
-
-theorem Mem.free_live (m : Mem) (h : 0 < m.live) :
-    m.free.live = m.live - 1 ∧ m.free.fault = m.fault ∧ m.free.libc = m.libc := by
-  unfold Mem.free; split
-  · omega
-  · simp
 
 theorem getD_set (l : List Nat) (a j v : Nat) :
     (l.set a v).getD j 0 = if a = j ∧ a < l.length then v else l.getD j 0 := by
@@ -102,7 +152,7 @@ namespace Chain
 /-- the pointer reached after `j` steps from the head of a chain of `n` nodes -/
 def ptrAt (n j : Nat) : Ptr := if j < n then some j else none
 
-theorem ofList_head_ptrAt (xs : List Nat) : (ofList xs).head = ptrAt xs.length 0 := by
+theorem ofList_head_ptrAt (xs : List Nat) : (ofList t xs).head = ptrAt xs.length 0 := by
   cases xs <;> simp [ofList, ptrAt]
 theorem next_ptrAt (n j : Nat) (h : j < n) : Ptr.next n (ptrAt n j) = ptrAt n (j + 1) := by
   simp [ptrAt, h, Ptr.next]
@@ -113,7 +163,7 @@ theorem drop_eq_getD_cons (xs : List Nat) (j : Nat) (h : j < xs.length) :
   rw [List.drop_eq_getElem_cons h]; simp [h]
 
 theorem collect_ofList (xs : List Nat) (m : Mem) : ∀ (k j : Nat), j + k ≤ xs.length →
-    collect (ofList xs) k (ptrAt xs.length j) m = ((xs.drop j).take k, m)
+    collect (ofList t xs) k (ptrAt xs.length j) m = ((xs.drop j).take k, m)
   | 0, j, _ => by simp [collect]
   | k + 1, j, h => by
     have hj : j < xs.length := by omega
@@ -129,17 +179,17 @@ theorem writeBack_spec (n : Nat) (vals : List Nat) (m : Mem) : ∀ (k i : Nat) (
     l.nodes.length = n → i + k ≤ n → n ≤ vals.length →
     ∃ l', writeBack k i (ptrAt n i) vals l m = (l', m) ∧ l'.nodes.length = n ∧
       (∀ j, j < n → l'.nodes.getD j 0 = if i ≤ j ∧ j < i + k then vals.getD j 0 else l.nodes.getD j 0) ∧
-      l'.size = l.size ∧ l'.head = l.head ∧ l'.tail = l.tail
-  | 0, i, l, hn, _, _ => ⟨l, rfl, hn, by intro j _; rw [if_neg (by omega)], rfl, rfl, rfl⟩
+      l'.size = l.size ∧ l'.head = l.head ∧ l'.tail = l.tail ∧ l'.triple = l.triple
+  | 0, i, l, hn, _, _ => ⟨l, rfl, hn, by intro j _; rw [if_neg (by omega)], rfl, rfl, rfl, rfl⟩
   | k + 1, i, l, hn, hk, hv => by
     have hi : i < n := by omega
     simp only [writeBack, hn]
     rw [next_ptrAt _ _ hi, ptrAt_lt _ _ hi]
     have hiv : i < vals.length := by omega
     simp only [Ptr.valid, hi, hiv, decide_true, Bool.and_self, Mem.check_true]
-    obtain ⟨l', e, h1, h2, h3, h4, h5⟩ := writeBack_spec n vals m k (i + 1) (l.setData (some i) (vals.getD i 0))
+    obtain ⟨l', e, h1, h2, h3, h4, h5, h6⟩ := writeBack_spec n vals m k (i + 1) (l.setData (some i) (vals.getD i 0))
       (by simp [Chain.setData, hn]) (by omega) hv
-    refine ⟨l', e, h1, ?_, h3, h4, h5⟩
+    refine ⟨l', e, h1, ?_, h3, h4, h5, h6⟩
     intro j hj
     rw [h2 j hj]
     simp only [Chain.setData, Ptr.pos, Option.getD_some, getD_set, hn]
@@ -151,56 +201,109 @@ theorem writeBack_spec (n : Nat) (vals : List Nat) (m : Mem) : ∀ (k i : Nat) (
       · rw [if_neg (by omega), if_neg (by omega)]
 end Chain
 
-/-- `k` node allocations in a row; the first refusal releases the `got` nodes obtained so far -/
-def Mem.allocChain : Nat → Nat → Mem → Bool × Mem
+namespace Chain
+variable {t : Triple}
+/-- the counting loop over a canonical chain counts the matching elements behind the cursor -/
+theorem countLoop_ofList (xs : List Nat) (f : Nat → Bool) (m : Mem) : ∀ (k j c : Nat), xs.length ≤ j + k →
+    countLoop (ofList t xs) f k (ptrAt xs.length j) c m = (c + (xs.drop j).countP f, m)
+  | 0, j, c, h => by simp [countLoop, List.drop_of_length_le (show xs.length ≤ j by omega)]
+  | k + 1, j, c, h => by
+    by_cases hj : j < xs.length
+    · have hn : Ptr.next xs.length (some j) = ptrAt xs.length (j + 1) := by rw [← ptrAt_lt _ _ hj, next_ptrAt _ _ hj]
+      rw [ptrAt_lt _ _ hj, drop_eq_getD_cons xs j hj, List.countP_cons]
+      by_cases hf : f (xs.getD j 0) = true
+      · simp only [countLoop, ofList_nodes, Ptr.valid, hj, decide_true, Mem.check_true, data_some, hf, if_true, hn]
+        rw [countLoop_ofList xs f m k (j + 1) _ (by omega)]; congr 1; omega
+      · simp only [countLoop, ofList_nodes, Ptr.valid, hj, decide_true, Mem.check_true, data_some, hf, if_false, hn,
+          Bool.false_eq_true]
+        rw [countLoop_ofList xs f m k (j + 1) _ (by omega)]; simp
+    · simp [countLoop, ptrAt, hj, List.drop_of_length_le (Nat.le_of_not_lt hj)]
+
+/-- the searching loop returns the position of the first match behind the cursor -/
+theorem indexLoop_ofList (xs : List Nat) (f : Nat → Bool) (m : Mem) : ∀ (k j i : Nat), xs.length ≤ j + k →
+    indexLoop (ofList t xs) f k (ptrAt xs.length j) i m = (((xs.drop j).findIdx? f).map (· + i), m)
+  | 0, j, i, h => by simp [indexLoop, List.drop_of_length_le (show xs.length ≤ j by omega)]
+  | k + 1, j, i, h => by
+    by_cases hj : j < xs.length
+    · have hn : Ptr.next xs.length (some j) = ptrAt xs.length (j + 1) := by rw [← ptrAt_lt _ _ hj, next_ptrAt _ _ hj]
+      rw [ptrAt_lt _ _ hj, drop_eq_getD_cons xs j hj, List.findIdx?_cons]
+      by_cases hf : f (xs.getD j 0) = true
+      · simp only [indexLoop, ofList_nodes, Ptr.valid, hj, decide_true, Mem.check_true, data_some, hf, if_true]
+        simp
+      · simp only [indexLoop, ofList_nodes, Ptr.valid, hj, decide_true, Mem.check_true, data_some, hf, if_false, hn,
+          Bool.false_eq_true]
+        rw [indexLoop_ofList xs f m k (j + 1) _ (by omega)]
+        cases (xs.drop (j + 1)).findIdx? f <;> simp; omega
+    · simp [indexLoop, ptrAt, hj, List.drop_of_length_le (Nat.le_of_not_lt hj)]
+
+theorem foreachLoop_ofList (xs : List Nat) (m : Mem) : ∀ (k j : Nat), xs.length ≤ j + k →
+    foreachLoop (ofList t xs) k (ptrAt xs.length j) m = (xs.drop j, m)
+  | 0, j, h => by simp [foreachLoop, List.drop_of_length_le (show xs.length ≤ j by omega)]
+  | k + 1, j, h => by
+    by_cases hj : j < xs.length
+    · rw [ptrAt_lt _ _ hj]
+      simp only [foreachLoop, ofList_nodes, Ptr.valid, hj, decide_true, Mem.check_true, data_some]
+      have hn : Ptr.next xs.length (some j) = ptrAt xs.length (j + 1) := by rw [← ptrAt_lt _ _ hj, next_ptrAt _ _ hj]
+      simp only [hn]
+      rw [foreachLoop_ofList xs m k (j + 1) (by omega)]
+      rw [drop_eq_getD_cons xs j hj]
+    · simp [foreachLoop, ptrAt, hj, List.drop_of_length_le (Nat.le_of_not_lt hj)]
+end Chain
+
+/-- `k` node allocations in a row through the triple `t`; the first refusal releases the `got` nodes
+obtained so far -/
+def Mem.allocChain (t : Triple) : Nat → Nat → Mem → Bool × Mem
   | 0, _, m => (true, m)
   | k + 1, got, m =>
-    let a := m.alloc
-    if !a.1 then (false, Mem.freeN got a.2) else Mem.allocChain k (got + 1) a.2
+    let a := (m.allocT t)
+    if !a.1 then (false, Mem.freeN t got a.2) else Mem.allocChain t k (got + 1) a.2
 
-theorem Mem.allocChain_spec : ∀ (k got : Nat) (m : Mem), got ≤ m.live →
-    ((Mem.allocChain k got m).1 = true → (Mem.allocChain k got m).2.live = m.live + k) ∧
-    ((Mem.allocChain k got m).1 = false → (Mem.allocChain k got m).2.live = m.live - got) ∧
-    (Mem.allocChain k got m).2.fault = m.fault ∧ (Mem.allocChain k got m).2.libc = m.libc
-  | 0, got, m, _ => by simp [Mem.allocChain]
+theorem Mem.allocChain_spec (t : Triple) : ∀ (k got : Nat) (m : Mem), got ≤ m.liveT t →
+    ((Mem.allocChain t k got m).1 = true → (Mem.allocChain t k got m).2.liveT t = m.liveT t + k) ∧
+    ((Mem.allocChain t k got m).1 = false → (Mem.allocChain t k got m).2.liveT t = m.liveT t - got) ∧
+    (Mem.allocChain t k got m).2.fault = m.fault ∧ Mem.Frame t m (Mem.allocChain t k got m).2
+  | 0, got, m, _ => by simp [Mem.allocChain, Mem.Frame.rfl']
   | k + 1, got, m, h => by
     simp only [Mem.allocChain]
-    cases ha : m.alloc.1
-    · have e := Mem.alloc_fst_false m ha
-      have f := Mem.freeN_live got m.alloc.2 (by omega)
-      simp only [Bool.not_false, if_true]
-      refine ⟨by simp, fun _ => by rw [f.1, e.1], by rw [f.2.1, e.2.1], by rw [f.2.2, e.2.2]⟩
-    · have e := Mem.alloc_fst_true m ha
-      have ih := Mem.allocChain_spec k (got + 1) m.alloc.2 (by omega)
-      simp only [Bool.not_true, Bool.false_eq_true, if_false]
+    by_cases ha : (m.allocT t).1 = true
+    · have e := Mem.allocT_fst_true m t ha
+      have ih := Mem.allocChain_spec t k (got + 1) (m.allocT t).2 (by omega)
+      simp only [ha, Bool.not_true, Bool.false_eq_true, if_false]
       refine ⟨fun h1 => by rw [ih.1 h1, e.1]; omega, fun h1 => by rw [ih.2.1 h1, e.1]; omega,
-        by rw [ih.2.2.1, e.2.1], by rw [ih.2.2.2, e.2.2]⟩
+        by rw [ih.2.2.1, e.2], (Mem.frame_allocT t m).trans ih.2.2.2⟩
+    · have ha' : (m.allocT t).1 = false := by simpa using ha
+      have e := Mem.allocT_fst_false m t ha'
+      have f := Mem.freeN_live t got (m.allocT t).2 (by omega)
+      simp only [ha', Bool.not_false, if_true]
+      refine ⟨by simp, fun _ => by rw [f.1, e.1], by rw [f.2.1, e.2.1], (Mem.frame_allocT t m).trans f.2.2⟩
 
 namespace Chain
+variable {t t2 : Triple}
+/-- the copies are obtained through the **destination's** triple `t`, whatever triple the source has -/
 theorem linkAll_ofList (xs : List Nat) : ∀ (k j : Nat) (acc : List Nat) (m : Mem), j + k ≤ xs.length →
-    linkAll (ofList xs) k (ptrAt xs.length j) acc m =
-      if (m.allocChain k acc.length).1 then (true, acc ++ (xs.drop j).take k, (m.allocChain k acc.length).2)
-      else (false, [], (m.allocChain k acc.length).2)
+    linkAll t (ofList t2 xs) k (ptrAt xs.length j) acc m =
+      if (m.allocChain t k acc.length).1 then (true, acc ++ (xs.drop j).take k, (m.allocChain t k acc.length).2)
+      else (false, [], (m.allocChain t k acc.length).2)
   | 0, j, acc, m, _ => by simp [linkAll, Mem.allocChain]
   | k + 1, j, acc, m, h => by
     have hj : j < xs.length := by omega
     simp only [linkAll, Mem.allocChain, ofList_nodes]
-    by_cases ha : m.alloc.1 = true
+    by_cases ha : (m.allocT t).1 = true
     case neg => simp [ha]
     case pos =>
       simp only [ha, Bool.not_true, Bool.false_eq_true, if_false]
       rw [next_ptrAt _ _ hj, ptrAt_lt _ _ hj]
       simp only [Ptr.valid, hj, decide_true, Mem.check_true, data_some, ofList_nodes]
-      have := linkAll_ofList xs k (j + 1) (acc ++ [xs.getD j 0]) m.alloc.2 (by omega)
+      have := linkAll_ofList xs k (j + 1) (acc ++ [xs.getD j 0]) (m.allocT t).2 (by omega)
       rw [this]
       simp only [List.length_append, List.length_cons, List.length_nil, List.append_assoc]
       rw [drop_eq_getD_cons xs j hj]
       simp
 
 theorem linkAllExternally_ofList (xs : List Nat) (m : Mem) :
-    (ofList xs).linkAllExternally m =
-      if (m.allocChain xs.length 0).1 then (true, xs, (m.allocChain xs.length 0).2)
-      else (false, [], (m.allocChain xs.length 0).2) := by
+    (ofList t2 xs).linkAllExternally t m =
+      if (m.allocChain t xs.length 0).1 then (true, xs, (m.allocChain t xs.length 0).2)
+      else (false, [], (m.allocChain t xs.length 0).2) := by
   unfold linkAllExternally
   rw [ofList_head_ptrAt, ofList_size, linkAll_ofList xs xs.length 0 [] m (by omega)]
   simp
